@@ -36,6 +36,26 @@ def ann_kind(ann: Optional[ast.expr]) -> str:
     return U
 
 
+_DECLARED: Dict[int, Dict[str, str]] = {}
+
+
+def declared_attr_kind(repo: Repo, attr: str) -> str:
+    """Kind of `<some object>.attr` from what the repository itself declares: every property of that name, in whatever class,
+    is annotated as a point (NPPointType / PointType) -> P, every one as a vector -> V; anything else, or disagreement -> unknown."""
+    table = _DECLARED.get(id(repo))
+    if table is None:
+        seen: Dict[str, set] = {}
+        for cls in repo.classes.values():
+            for name, m in cls.methods.items():
+                if getattr(m, "is_property", False):
+                    seen.setdefault(name, set()).add(ann_kind(m.node.returns))
+            for name, ann in cls.class_annotations.items():
+                seen.setdefault(name, set()).add(ann_kind(ann))
+        table = {name: next(iter(ks)) for name, ks in seen.items() if len(ks) == 1 and next(iter(ks)) in (P, V)}
+        _DECLARED[id(repo)] = table
+    return table.get(attr, U)
+
+
 class Kinds:
     def __init__(self, repo: Repo, fn: FuncInfo, outer: Optional[Dict[str, str]] = None, node: Optional[ast.AST] = None):
         self.repo = repo
@@ -103,7 +123,7 @@ class Kinds:
                 return P
             if e.attr == "components":
                 return V
-            return U
+            return declared_attr_kind(self.repo, e.attr)
         if isinstance(e, ast.UnaryOp):
             return self.kind(e.operand)
         if isinstance(e, ast.BinOp):
